@@ -453,7 +453,10 @@ func c10(w *core.World, r *core.Report) {
 					continue
 				}
 				ai := pi - off
-				okArg := ai >= 0 && ai < len(all) && all[ai] == ssa.Value(f.Params[pi])
+				okArg := false
+				core.WithHost(f, func() {
+					okArg = ai >= 0 && ai < len(all) && (all[ai] == ssa.Value(f.Params[pi]) || (c.Parent() != f && core.HasOrigin(all[ai], f.Params[pi])))
+				})
 				r.Check(okArg, "FORWARD", core.Site(f, "%s passes %s to %s", f.Name(), on, shortSrc(callee)), w.InstrPos(c), "option must be forwarded unchanged and in position")
 			}
 		}
@@ -494,20 +497,27 @@ func c10(w *core.World, r *core.Report) {
 		for _, c := range core.CallsTo(f, e.callee) {
 			args := core.CallArgs(c)
 			ok := true
-			// every parameter of the entry point (after the receiver) appears as an argument in order
-			pi := 1
-			for _, a := range args {
-				if pi < len(f.Params) && a == ssa.Value(f.Params[pi]) {
-					pi++
+			core.WithHost(f, func() {
+				// every parameter of the entry point (after the receiver) appears as an argument in order (possibly through a
+				// helper shared by the entry points)
+				pi := 1
+				for _, a := range args {
+					if pi < len(f.Params) && core.HasOrigin(a, f.Params[pi]) {
+						pi++
+					}
 				}
-			}
-			if pi != len(f.Params) {
-				ok = false
-			}
-			if e.name == "ToJsonIETF" || e.name == "ToJson" {
-				b, isC := core.ConstBool(args[len(args)-1])
-				ok = ok && isC && b == (e.name == "ToJsonIETF")
-			}
+				if pi != len(f.Params) {
+					ok = false
+				}
+				if e.name == "ToJsonIETF" || e.name == "ToJson" {
+					os := core.Origins(args[len(args)-1])
+					for _, o := range os {
+						b, isC := core.ConstBool(o)
+						ok = ok && isC && b == (e.name == "ToJsonIETF")
+					}
+					ok = ok && len(os) > 0
+				}
+			})
 			r.Check(ok, "FORWARD", core.Site(f, "entry point forwards"), w.InstrPos(c), "public rendering entry points hand their options through")
 		}
 	}
